@@ -565,8 +565,12 @@ def rule_performer_translation(ctx, R: str):
       it = absint.Interp(ctx.repo, ctx.ev, hooks=hooks)
       inst = Obj('qtyping:TransformationInst', {'transformation': QT['ADD_DEQUANTIZE'], 'tensor_id': 7, 'producer': p, 'consumers': list(cons), 'parameters': None})
       insts = Obj('qtyping:TensorTransformationInsts', {'tensor_name': 't', 'subgraph_id': 1, 'instructions': [inst]})
-      selfo = Obj(PERF, {'_original_op_id_map': [[0], list(orig)], '_added_op_id_map': [[], list(added)],
-                         '_transformation_registration': {QT['ADD_DEQUANTIZE']: cap}})
+      selfo = it.construct(PERF, [], {}, None, 0)   # the class's own __init__, so that new attributes exist
+      if not isinstance(selfo, Obj):
+        raise index.AnalysisError(f'{PERF}.__init__ is not interpretable')
+      selfo.fields['_original_op_id_map'] = [[0], list(orig)]
+      selfo.fields['_added_op_id_map'] = [[], list(added)]
+      selfo.fields['_transformation_registration'] = {QT['ADD_DEQUANTIZE']: cap}
       sg0, sg1 = Obj('x:SubGraphT', {'name': 'sg0'}), Obj('x:SubGraphT', {'name': 'sg1'})
       model = Obj('x:ModelT', {'operatorCodes': ['codes'], 'buffers': ['buffers'], 'subgraphs': [sg0, sg1]})
       outs = it.outcomes(f, [selfo, insts, 0, model], copy_args=False)
@@ -629,6 +633,8 @@ def rule_performer_simulation(ctx, R: str):
       'replacement before insertion in plan order': [(0, [('QUANTIZE_TENSOR', 7, -1, [1]), ('ADD_QUANTIZE', 1, 0, [1])]), (0, [('ADD_QUANTIZE', 2, 1, [2])])],
       'two subgraphs': [(1, [('ADD_QUANTIZE', 1, 0, [1])]), (0, [('ADD_QUANTIZE', 1, 0, [1, 2])]), (1, [('ADD_DEQUANTIZE', 2, 1, [2])]), (0, [('ADD_DEQUANTIZE', 3, 2, [3])])],
       'chain in the second subgraph after an insertion in the first': [(0, [('ADD_QUANTIZE', 1, 0, [1])]), (1, [('ADD_DEQUANTIZE', 1, 0, [1, 2]), ('ADD_QUANTIZE', 1, 0, [1, 2])]), (1, [('ADD_QUANTIZE', 2, 1, [2])])],
+      'operator replaced by a pattern, then its output and a later operator': [(0, [('EMULATED_SUBCHANNEL', 9, -1, [1])]), (0, [('ADD_QUANTIZE', 2, 1, [-1])]), (0, [('ADD_DEQUANTIZE', 3, 2, [3])])],
+      'insertion in front, then a replacement, then the replaced operator as producer': [(0, [('ADD_QUANTIZE', 0, -1, [0])]), (0, [('EMULATED_SUBCHANNEL', 9, -1, [2])]), (0, [('ADD_DEQUANTIZE', 3, 2, [3, -1])])],
       'same operator twice then a later tensor': [(0, [('ADD_QUANTIZE', 1, 0, [1]), ('ADD_QUANTIZE', 1, 0, [2])]), (0, [('ADD_QUANTIZE', 1, 0, [3])]), (0, [('ADD_DEQUANTIZE', 2, 2, [3])])],
   }
   rs.exhaustive = True
@@ -682,6 +688,16 @@ def rule_performer_simulation(ctx, R: str):
       got_cons = sorted(('OUT' if (isinstance(c, int) and c < 0) else (cur[c] if isinstance(c, int) and c < len(cur) else f'<bad {c!r}>')) for c in gc) if isinstance(gc, list) else f'<{gc!r}>'
       if got_cons != want_cons:
         problems.append(f'{token}: consumer positions {gc!r} are {got_cons} in the current graph {cur}; the plan means {want_cons}')
+      if kind == 'EMULATED_SUBCHANNEL':
+        # op replacement: the consuming operator is replaced by a pattern of three operators, the last of which produces the old output
+        pos_c = [c for c in gc if isinstance(c, int) and 0 <= c < len(cur)] if isinstance(gc, list) else []
+        if not pos_c:
+          problems.append(f'{token}: replacement without a consumer position')
+          return Obj('qtyping:TransformationInfo', {'op_id': 0, 'num_ops_added': 0, 'output_tensor_id': f['tensor_id']})
+        pos = pos_c[0]
+        n_rep = sum(1 for x in cur if x.startswith('e'))
+        cur[pos:pos + 1] = [f'e{n_rep}a', f'e{n_rep}b', cur[pos]]
+        return Obj('qtyping:TransformationInfo', {'op_id': pos, 'num_ops_added': 2, 'output_tensor_id': f['tensor_id']})
       if kind not in ins_kinds:
         return Obj('qtyping:TransformationInfo', {'op_id': 0, 'num_ops_added': 0, 'output_tensor_id': f['tensor_id']})
       pos_c = [c for c in gc if isinstance(c, int) and c >= 0] if isinstance(gc, list) else []
